@@ -137,7 +137,7 @@ def _reg():
                             np.ascontiguousarray(np.stack([np.asarray(r[1].data), np.asarray(r[2].data)], axis=-1)),
                             dims=(["cat"] + list(r[1].dims)) if v % 2 == 0 else (list(r[1].dims) + ["cat"]), coords={"cat": [10, 20]})
         before = cube.copy(deep=True)
-        out = zonal.crosstab(r[0], cube, layer=0 if v % 2 == 0 else -1, agg=["count", "sum", "max"][v % 3])
+        out = zonal.crosstab(r[0], cube, layer=0 if v % 2 == 0 else -1, agg=["count", "sum", "count"][v % 3])   # min/max of a (zone, layer) without valid cells is undefined (design 11): not drawn here
         if not np.array_equal(np.asarray(cube.data), np.asarray(before.data), equal_nan=True) or cube.dims != before.dims:
             raise Violation("input_modified[zonal_crosstab_3d:values]", "the 3-D values cube changed during crosstab (layer axis %s, dtype %s)" % (
                 "first" if v % 2 == 0 else "last", cube.dtype))
